@@ -77,6 +77,11 @@ PROJECTION: dict[str, str] = {
     "FuncDef.is_type_check_only": "@type_check_only marker, read only by stubtest, which always builds with incremental=False",
     "OverloadedFuncDef.is_type_check_only": "@type_check_only marker, read only by stubtest (incremental=False)",
     "UnpackType.from_star_syntax": "spelling of the annotation (*Ts vs Unpack[Ts]); read only by typeanal on unanalysed annotations",
+    "TypeInfo.bad_mro": "set by semanal when MRO linearisation fails; no reader anywhere in mypy/ (the fallback MRO itself is serialized)",
+    "TypeVarExpr.default_depends": "semanal bookkeeping for recursive PEP 696 defaults of the defining module",
+    "ParamSpecExpr.default_depends": "semanal bookkeeping for recursive PEP 696 defaults of the defining module",
+    "TypeVarTupleExpr.default_depends": "semanal bookkeeping for recursive PEP 696 defaults of the defining module",
+    "TypeAlias.default_depends": "semanal bookkeeping for recursive PEP 696 defaults of the defining module",
     "TypeInfo.assuming": "transient subtype-check stack",
     "TypeInfo.assuming_proper": "transient subtype-check stack",
     "TypeInfo.inferring": "transient protocol-inference stack",
@@ -96,6 +101,12 @@ CACHES: dict[str, str] = {
     "MypyFile._is_typeshed_file": "memo derived from path",
     "TypeInfo.type_object_type": "memo of type_object_type(), recomputed on demand",
 }
+
+# Positions stored on *types* are excluded in every pairing: they only give error context while the defining
+# module is checked, and the binary reader hands out one shared Instance object per common builtin class
+# (types.instance_cache), whose position is whatever its last user set.
+TYPE_POSITIONS = "line/column/end_line/end_column of Type objects: error context only; shared instances in the binary reader"
+_POS = frozenset(["line", "column", "end_line", "end_column"])
 
 # attributes through which a symbol node *contains* another symbol node (descend); every other
 # symbol-node-valued attribute is a cross reference compared by (class, fullname)
@@ -164,6 +175,7 @@ class Differ:
         self.cur_info: list[str] = []
         self.plans: dict[type, list[tuple[str, str, int]]] = {}
         self.symtypes = (N.SymbolNode, N.FuncBase)
+        self.type_names = {k.__name__ for k in vars(T).values() if isinstance(k, type) and issubclass(k, T.Type)} | {"ExtraAttrs"}
         self.flag_tables = {
             "Var": list(N.VAR_FLAGS), "FuncDef": list(N.FUNCDEF_FLAGS),
             "OverloadedFuncDef": list(N.FUNCBASE_FLAGS), "TypeInfo": list(N.TypeInfo.FLAGS),
@@ -187,6 +199,8 @@ class Differ:
     def skip(self, cls: str, attr: str) -> bool:
         if f"{cls}.{attr}" in CACHES or f"*.{attr}" in CACHES:
             return True
+        if attr in _POS and cls in self.type_names:
+            return True   # TYPE_POSITIONS
         if not self.projected:
             return False
         return f"{cls}.{attr}" in PROJECTION or f"*.{attr}" in PROJECTION
@@ -254,8 +268,10 @@ class Differ:
                 self.report(where, path, ka, kb, "set")
             return
         if isinstance(a, dict):
-            if where == "TypeInfo.metadata":
-                # a JSON object by declaration (dict[str, JsonDict]): key order is not part of its value; both codecs sort keys
+            if where in ("TypeInfo.metadata", "ExtraAttrs.attrs"):
+                # TypeInfo.metadata: a JSON object by declaration (dict[str, JsonDict]); ExtraAttrs.attrs: attribute name ->
+                # type, only ever looked up by key (ExtraAttrs.__eq__ is dict equality).  Key order is not part of the value;
+                # both codecs sort the keys.
                 if sorted(a, key=repr) != sorted(b, key=repr):
                     self.report(where, path, sorted(a, key=repr), sorted(b, key=repr), "dict keys")
                 for k in a:
@@ -363,7 +379,7 @@ class Differ:
                         # without it.  Only this direction (absent -> enclosing class) is accepted.
                         self.cell("norm:" + where + ":set-by-fixup")
                     else:
-                        what = "cross reference"
+                        what = "cross reference changed"
                         if ry is None or ry == ("FakeInfo",):
                             what = "cross reference lost"
                         elif rx is None or rx == ("FakeInfo",):
@@ -394,6 +410,11 @@ class Differ:
                 self.diff_contained(e, f, f"{p}[{i}]", where)
             return
         if x is None or y is None or x is UNSET or y is UNSET:
+            if where == "TypeInfo.special_alias" and self.projected and x is None and y is not None and y is not UNSET:
+                # NORMALISATION (documented): the fixer calls update_tuple_type()/update_typeddict_type(), which create the
+                # alias as a pure function of tuple_type/typeddict_type; synthesized classes (intersections) lack it when fresh
+                self.cell("norm:TypeInfo.special_alias:created-by-fixup")
+                return
             if x is not y:
                 self.report(where, p, self.ref_of(x) if x not in (None, UNSET) else x,
                             self.ref_of(y) if y not in (None, UNSET) else y, "presence")
@@ -454,9 +475,20 @@ class Differ:
             if self.ref_of(na) != self.ref_of(nb):
                 self.report("SymbolTableNode.node", path + ".node", self.ref_of(na), self.ref_of(nb), "cross reference")
             elif type(na) is type(nb) and isinstance(na, (N.Var, N.FuncDef, N.Decorator, N.OverloadedFuncDef)) and na is not nb:
-                # same name, possibly a different object (redefinitions): the type presented must agree
+                # same fullname but possibly another object (e.g. "x-redefinition" is stored as a reference to "x"):
+                # the type an importer gets through this name must be the same
                 ta, tb = getattr(a, "type", None), getattr(b, "type", None)
-                self.diff(ta, tb, path + ".node<by-name>.type", "SymbolTableNode.node(type via cross_ref)")
+                sub = Differ(self.projected, self.modules, self.was_xref)
+                sub.plans = self.plans
+                sub.diff(ta, tb, path + ".node<by-name>.type", "type")
+                if sub.ndiffs:
+                    first = sub.diffs[0]
+                    redef = "-redefinition" in (name or "")
+                    self.report("SymbolTableNode.cross_ref", path,
+                                f"{self.ref_of(na)} with {first['where']} = {first['a']}",
+                                f"{self.ref_of(nb)} with {first['where']} = {first['b']}",
+                                "redefinition symbol re-links to the first definition" if redef
+                                else "name re-links to a definition with a different type")
             return
         self.defined += 1
         self.cell("sym:defined")
